@@ -410,14 +410,38 @@ class ImplExec:
                         break
 
 
+HANG_TURNS = 20000
+
+
 def run_impl(lines: list[str]) -> tuple[list[str], list[str]]:
     """Execute one scenario (starting with `new`/`bnew`) on the implementation."""
     async def main() -> tuple[list[str], list[str]]:
         ex = ImplExec()
         out = []
         for ln in lines:
-            out.append(await ex.handle(ln))
-        await ex.finish()
+            # nothing here waits for wall-clock time or for another thread: an operation that has not returned after this many turns of
+            # the event loop never will (e.g. it polls for something that is not going to happen)
+            t = asyncio.ensure_future(ex.handle(ln))
+            for _ in range(HANG_TURNS):
+                if t.done():
+                    break
+                await asyncio.sleep(0)
+            if not t.done():
+                t.cancel()
+                out.append('HANG')
+                ex.oracle_msgs.append(f'operation {ln!r} had not returned after {HANG_TURNS} turns of the event loop (after {out[:-1][-6:]})')
+                return out, ex.oracle_msgs
+            out.append(t.result())
+        t = asyncio.ensure_future(ex.finish())
+        for _ in range(HANG_TURNS * 5):
+            if t.done():
+                break
+            await asyncio.sleep(0)
+        if not t.done():
+            t.cancel()
+            ex.oracle_msgs.append(f'ending the topic(s) at the end of the scenario (aclose / close) had not returned after {HANG_TURNS * 5} turns of the event loop')
+        else:
+            t.result()
         return out, ex.oracle_msgs
     loop = asyncio.new_event_loop()
     try:
